@@ -70,6 +70,16 @@ func init() {
 				o.FailProb = 0
 				o.Pipe.CyclicProb = 0
 			}
+			if c.Idx%5 == 2 {
+				// the limit counts the tasks that really execute, not the jobs that are still listed: saves with retention
+				// while older jobs still run (slow-to-stop tasks) behind newer finished ones
+				o.StoreDir = c.TmpDir
+				o.Retention = true
+				o.WSave = 14
+				o.WCancel += 6
+				o.SlowStopProb = 0.4
+				o.Pipe.CyclicProb = 0
+			}
 			return histCase(c, o, 400)
 		},
 		MinDistinct: 20,
@@ -343,6 +353,12 @@ func init() {
 				o.NPipes = 1
 				o.Classes = []gen.ConfigClass{delayed[c.Idx%len(delayed)]}
 				o.WSchedule, o.WFinish, o.WCancel, o.WFire, o.WStopRel, o.WRead = 36, 22, 12, 26, 3, 1
+				if c.Idx%3 == 1 {
+					// the delay a job was accepted under is a lower bound whatever happens to the definition afterwards:
+					// reloads that remove / shorten the delay while timers are pending, followed by completions and cancels
+					o.WReload = 10
+					o.FailProb = 0
+				}
 				return histCase(c, o, 300)
 			}
 			h := drv.RunDelayCase(c.Seed, delayParams(c.Idx))
